@@ -457,6 +457,22 @@ class Check:
                 open(cache, "w").write("\n".join(f.strip() for f in found))
         if os.path.exists(cache):
             self.cov["print_assumptions"] = sorted(set(open(cache).read().split("\n")))
+        if ok and self.tier == "thorough":
+            # independent re-check of the compiled cone (and everything it depends on) + axiom summary
+            mod = "GV." + prop_file[:-2].replace("/", ".")
+            t0 = time.time()
+            try:
+                r = subprocess.run(["timeout", "3000", "coqchk", "-silent", "-o", "-Q", ".", "GV", mod], cwd=COQ,
+                                   stdout=subprocess.PIPE, stderr=subprocess.STDOUT, text=True)
+                out, rc = r.stdout, r.returncode
+            except Exception as e:  # pragma: no cover
+                out, rc = str(e), 1
+            summ = out[out.find("CONTEXT SUMMARY"):] if "CONTEXT SUMMARY" in out else out[-600:]
+            self.cov["coqchk"] = {"cmd": "cd /verif/coq && coqchk -silent -o -Q . GV " + mod, "exit": rc, "wall_s": round(time.time() - t0, 1),
+                                  "summary": [l.strip() for l in summ.splitlines() if l.strip().startswith("*") or l.strip().startswith("GV.") or "Axiom" in l]}
+            if rc != 0 or "* Axioms: <none>" not in " ".join(summ.split()):
+                ok = False
+                mlog += "\ncoqchk did not accept the cone or reports axioms:\n" + summ[-1500:]
         return ok, mlog
 
     def fact_obligations(self, n, ok=True):
